@@ -121,6 +121,20 @@ def run(prog: Program, rep: Report, tier: str):
                         "differs between ranks and is not a function of (seed, epoch)", line=call.lineno, clause="C12.1")
                 continue
             seed, attrs, others = seed_deps(fa, dep, gen)
+            if seed is None and gen[0] in ("self",) or (seed is None and gen[0] == "var" and gen[1].startswith("self.")):
+                # a generator kept on the instance: acceptable only if this very iteration re-seeds it before the draw
+                reseeds = [(m, c2) for m, c2 in fa.calls_named("manual_seed") if fa.sym.term(c2.func.value, m) == gen
+                           and fa.cfg.dominates(m, n) and c2.args]
+                if not reseeds:
+                    rep.bad("G4.seed-epoch", fi, construct, f"the draw uses the persistent generator {show(gen)}, which is "
+                            f"not re-seeded inside __iter__: the draw depends on how often the sampler was iterated before "
+                            f"(a second pass over the same (seed, epoch), or an extra pass on one rank, yields a different "
+                            f"global draw)", line=call.lineno, clause="C12.1")
+                    continue
+                seed = fa.sym.term(reseeds[-1][1].args[0], reseeds[-1][0])
+                d_ = dep.of_term(seed)
+                attrs = {x[1] for x in d_ if x[0] == "self"}
+                others = [show(x) for x in d_ if x[0] == "param"]
             if seed is None:
                 rep.unk("G4.seed-epoch", fi, construct, f"generator {show(gen)} not of the form "
                         f"torch.Generator().manual_seed(...)", line=call.lineno, clause="C12.1")
@@ -215,6 +229,7 @@ def run(prog: Program, rep: Report, tier: str):
                                              None if kw_ok else "repeats is not self.num_repeats") if x),
                        line=fa.line(rn), clause="C12.5")
     rep.floor("generator-based draws in rank-aware samplers", n_draws, 4)
+    padding_rule(prog, rep)
     # RandomSampler (not rank-aware): the repeat path keeps the explicit generator and repeats before cutting
     C = prog.cls("RandomSampler")
     fi = C.methods.get("__iter__")
@@ -241,3 +256,44 @@ def run(prog: Program, rep: Report, tier: str):
             rep.decide(kw_ok, "G8.repeat-before-split", fi, "repeat", "repeat_interleave(num_repeats)",
                        "repeats is not self.num_repeats", line=fa.line(rn), clause="C12.5", nontrivial=False)
     names.check(prog, rep, FILES, clause="C12.G1", floor=15)
+
+
+def padding_rule(prog: Program, rep: Report):
+    """Wrap-around padding of DistributedSampler's repeat path: (indices * k)[:padding] needs k * len(indices) >= padding."""
+    rep.rule("G6.padding-sufficient", "where the global draw is padded by wrapping around, '(indices * k)[:p]', the repetition "
+             "count k is the ceiling of p / len(indices) (math.ceil(p / n), (p + n - 1) // n or p // n + 1) - with the floor "
+             "p // n the padded list is too short whenever n does not divide p")
+    C = prog.cls("DistributedSampler")
+    fi = C.methods.get("__iter__")
+    fa = fa_of(prog, fi)
+    found = 0
+    for n in sorted(fa.cfg.nodes):
+        for x in fa.cfg.walk_node(n):
+            if isinstance(x, ast.Subscript) and isinstance(x.slice, ast.Slice) and x.slice.lower is None \
+                    and x.slice.upper is not None and isinstance(x.value, ast.BinOp) and isinstance(x.value.op, ast.Mult):
+                P = fa.sym.term(x.slice.upper, n)
+                a, b = x.value.left, x.value.right
+                lst, k = (a, b)
+                kt = fa.sym.term(k, n)
+                ln = ("call", ("global", "len"), (fa.sym.term(lst, n),), ())
+                found += 1
+                ok = None
+                why = f"repetition count {show(kt)} of unrecognised shape"
+                if kt[0] == "call" and kt[1][0] == "global" and kt[1][1] == "math.ceil" and len(kt[2]) == 1:
+                    ok = kt[2][0] == ("binop", "/", P, ln)
+                    why = "k = math.ceil(p / len(indices))" if ok else f"math.ceil of {show(kt[2][0])}, not of p / len(indices)"
+                elif kt == ("binop", "//", P, ln):
+                    ok, why = False, ("k = p // len(indices) rounds down: the padded list is shorter than the padding whenever "
+                                      "len(indices) does not divide it (the per-rank streams no longer have len(sampler) "
+                                      "entries)")
+                else:
+                    pk = term_to_poly(kt)
+                    fl = ("binop", "//", P, ln)
+                    from ..sym import Poly
+                    if pk == Poly.atom(fl) + Poly.const(1):
+                        ok, why = True, "k = p // len(indices) + 1"
+                    elif kt[0] == "binop" and kt[1] == "//" and kt[3] == ln and term_to_poly(kt[2]) == term_to_poly(P) + \
+                            term_to_poly(ln) - Poly.const(1):
+                        ok, why = True, "k = (p + n - 1) // n"
+                rep.decide(ok, "G6.padding-sufficient", fi, "wrap-around", why, why, line=x.lineno, clause="C12.3")
+    rep.floor("wrap-around padding sites", found, 1)
